@@ -45,6 +45,10 @@ namespace hs
         bool                     tape_valid = true;
         std::vector<std::size_t> outer_len; // lengths of the outer markers' tapes when this one was taken
         // temporary stack scopes (K_TEMP): blocks in use when the scope was opened; shrink_to_fit() requested on it
+        std::size_t grew_next = 0; // next_capacity() right before the first growth after this marker (0: none yet)
+        std::size_t block = 0;         // SimHeap block of the stack's top when the marker was taken
+        bool        block_known = false;
+        bool        grew_dead = false; // a cache purge or a failed request since: not to be learned or judged
         std::size_t t_size  = 0;
         bool        t_flag  = false;
         std::size_t t_block = 0;
@@ -69,6 +73,8 @@ namespace hs
         std::uintptr_t           last_end     = 0; // end (incl. back fence) of the latest stack-like allocation
         bool                     last_end_valid = false;
         std::size_t              last_block     = 0;
+        std::size_t              cur_block = 0; // K_STACK: SimHeap block the top of the stack lies in
+        bool                     cur_block_known = false;
         // K_TEMP: blocks the stack is using, blocks it caches, block of the current top; valid while t_model
         std::size_t t_size = 1, t_cached = 0, t_block = 0;
         bool        t_model = false, t_base_flag = false;
